@@ -197,7 +197,7 @@ for it in range(N // 2):
                 {"box": box.round(4).tolist()}, lambda kind=kind, box=box, pts=pts: box_contract(kind, box, pts))
 
 
-def pbc_contract(kind, box):
+def pbc_contract(kind, box, variant="inside"):
     # a 4-atom chain molecule wrapped into the box: after remove_pbc bonded atoms are within minimum-image distance
     start = rng.uniform(0, 1, size=3) @ box
     step = rng.normal(size=(3, 3))
@@ -205,9 +205,19 @@ def pbc_contract(kind, box):
     pts = np.vstack([start, start + np.cumsum(step, axis=0)])
     arr = struc.AtomArray(4)
     arr.coord = struc.move_inside_box(pts.astype(np.float32), box.astype(np.float32))
+    if variant == "molecule in a neighbouring image":
+        # atoms are wrapped individually, then the whole system sits outside the box (e.g. after a translation)
+        arr.coord = (arr.coord.astype(float) + np.array([1, -1, 2]) @ box).astype(np.float32)
+    elif variant == "first atom outside":
+        arr.coord[0] = (arr.coord[0].astype(float) + np.array([-1, 0, 1]) @ box).astype(np.float32)
     arr.box = box.astype(np.float32)
     arr.bonds = struc.BondList(4, np.array([(0, 1, 1), (1, 2, 1), (2, 3, 1)]))
     out = struc.remove_pbc(arr)
+    direct = struc.remove_pbc_from_coord(arr.coord, arr.box)
+    for i in range(3):
+        dl = np.linalg.norm(direct[i + 1].astype(float) - direct[i].astype(float))
+        if abs(dl - 1.4) > 8e-3:
+            return f"remove_pbc_from_coord ({variant}): neighbours {i}-{i+1} are {dl:.4f} apart (1.4 before wrapping)"
     for i in range(3):
         dlen = np.linalg.norm(out.coord[i + 1].astype(float) - out.coord[i].astype(float))
         if abs(dlen - 1.4) > 5e-3:
@@ -220,6 +230,7 @@ def pbc_contract(kind, box):
 
 for it in range(N // 4):
     for kind, box in boxes(rng):
-        R.check("remove_pbc keeps bonded atoms at minimum-image distance and shifts by lattice vectors", f"remove_pbc {kind}",
-                {"box": box.round(4).tolist()}, lambda kind=kind, box=box: pbc_contract(kind, box))
+        for variant in ("inside", "molecule in a neighbouring image", "first atom outside"):
+            R.check("remove_pbc keeps bonded atoms at minimum-image distance and shifts by lattice vectors", f"remove_pbc {kind} ({variant})",
+                    {"box": box.round(4).tolist(), "variant": variant}, lambda kind=kind, box=box, variant=variant: pbc_contract(kind, box, variant))
 R.finish()
